@@ -30,8 +30,26 @@ Proof.
       repeat split. lia.
 Qed.
 
+(* ================= generic in the reader's atom limit vm (ProgramReader::setMaxVar): NO hypothesis on vm is needed for soundness;
+   g_sound (vm = sm_varMax, the reader without a configured limit) follows behind the section ================= *)
+Section MaxVar.
+Variable vm : Z.
+Local Notation m_atom := (m_atom_v vm).
+Local Notation m_body := (m_body_v vm).
+Local Notation m_sum := (m_sum_v vm).
+Local Notation read_rule := (read_rule_v vm).
+Local Notation read_rules := (read_rules_v vm).
+Local Notation do_parse := (do_parse_v vm).
+Local Notation parse_steps := (parse_steps_v vm).
+Local Notation read_smodels := (read_smodels_v vm).
+Local Notation gbody_in := (gbody_in_v vm).
+Local Notation grule_in := (grule_in_v vm).
+Local Notation gstep_in := (gstep_in_v vm).
+Local Notation gin_range := (gin_range_v vm).
+Local Notation m_atom_inv := (V.C07.ProofsGLex.m_atom_inv vm).
+
 Lemma atoms_inv fuel cnt s vs s' : m_many m_atom fuel cnt s = Ok (vs, s') -> 0 <= cnt ->
-  exists l, toks l (rest s) (rest s') /\ Z.of_nat (length l) = cnt /\ vs = gvals l /\ forallb gatom_in l = true.
+  exists l, toks l (rest s) (rest s') /\ Z.of_nat (length l) = cnt /\ vs = gvals l /\ forallb (gratom_in vm) l = true.
 Proof. apply many_inv. apply m_atom_inv. Qed.
 
 Lemma m_weight_inv s v s' : m_weight s = Ok (v, s') ->
@@ -60,7 +78,7 @@ Lemma m_body_inv s lits s' : m_body s = Ok (lits, s') ->
   exists b, toks (gb_len b :: gb_neg b :: gb_atoms b) (rest s) (rest s') /\ gbody_shape b = true /\ gbody_in b = true /\
             lits = d_gbody b.
 Proof.
-  unfold m_body. intros H. binv H. destruct a as [len s1]. binv H. destruct a as [neg s2]. binv H. binv H. destruct a0 as [atoms s3].
+  unfold m_body_v. intros H. binv H. destruct a as [len s1]. binv H. destruct a as [neg s2]. binv H. binv H. destruct a0 as [atoms s3].
   inversion H; subst. clear H.
   destruct (count_inv _ _ _ E) as (nl & Tl & Vl & Rl & Pl). destruct (count_inv _ _ _ E0) as (nn & Tn & Vn & Rn & Pn).
   apply require_ok in E1. rewrite neg_check_body_eq in E1. cbn [negb orb] in E1.
@@ -68,7 +86,7 @@ Proof.
   exists (mkgbody nl nn l). cbn [gb_len gb_neg gb_atoms]. split; [|split; [|split]].
   - eapply toks_cons; [eassumption|]. eapply toks_cons; eassumption.
   - unfold gbody_shape, len_is. cbn [gb_len gb_atoms]. lia.
-  - unfold gbody_in. cbn [gb_len gb_neg gb_atoms]. rewrite Rl, Rn, Hrs, Vl, Vn, E1. reflexivity.
+  - unfold gbody_in_v. cbn [gb_len gb_neg gb_atoms]. rewrite Rl, Rn, Hrs, Vl, Vn, E1. reflexivity.
   - rewrite d_gbody_eq by (cbn [gb_neg]; lia). cbn [gb_neg gb_atoms]. rewrite Vn, Hvs. reflexivity.
 Qed.
 
@@ -76,7 +94,7 @@ Lemma m_sum_c_inv s bnd wl s' : m_sum false s = Ok (bnd, wl, s') ->
   exists b bn, toks (gb_len b :: gb_neg b :: bn :: gb_atoms b) (rest s) (rest s') /\ gbody_shape b = true /\ gbody_in b = true /\
                gweight_in bn = true /\ bnd = nval bn /\ wl = map (fun l => (l, 1)) (d_gbody b).
 Proof.
-  unfold m_sum. intros H. binv H. destruct a as [len s1]. binv H. destruct a as [neg s2]. binv H. destruct a as [bd s3].
+  unfold m_sum_v. intros H. binv H. destruct a as [len s1]. binv H. destruct a as [neg s2]. binv H. destruct a as [bd s3].
   cbv iota beta in H. binv H. binv H. binv H. destruct a1 as [atoms s4]. inversion H; subst. clear H.
   destruct (count_inv _ _ _ E) as (nl & Tl & Vl & Rl & Pl). destruct (count_inv _ _ _ E0) as (nn & Tn & Vn & Rn & Pn).
   destruct (count_inv _ _ _ E1) as (nb & Tb & Vb & Rb & Pb).
@@ -85,7 +103,7 @@ Proof.
   exists (mkgbody nl nn l), nb. cbn [gb_len gb_neg gb_atoms]. split; [|split; [|split; [|split; [|split]]]].
   - eapply toks_cons; [eassumption|]. eapply toks_cons; [eassumption|]. eapply toks_cons; eassumption.
   - unfold gbody_shape, len_is. cbn [gb_len gb_atoms]. lia.
-  - unfold gbody_in. cbn [gb_len gb_neg gb_atoms]. rewrite Rl, Rn, Hrs, Vl, Vn, E3. reflexivity.
+  - unfold gbody_in_v. cbn [gb_len gb_neg gb_atoms]. rewrite Rl, Rn, Hrs, Vl, Vn, E3. reflexivity.
   - unfold gweight_in. lia.
   - rewrite wrap32s_id by lia. lia.
   - rewrite d_gbody_eq by (cbn [gb_neg]; lia). cbn [gb_neg gb_atoms]. rewrite Vn, Hvs. reflexivity.
@@ -96,7 +114,7 @@ Lemma m_sum_w_inv s bnd wl s' : m_sum true s = Ok (bnd, wl, s') ->
                len_is (gb_len b) wts = true /\ gbody_in b = true /\ gweight_in bn = true /\ forallb gweight_in wts = true /\
                bnd = nval bn /\ wl = combine (d_gbody b) (gvals wts).
 Proof.
-  unfold m_sum. intros H. binv H. destruct a as [bd s1]. binv H. destruct a as [len s2]. binv H. destruct a as [neg s3].
+  unfold m_sum_v. intros H. binv H. destruct a as [bd s1]. binv H. destruct a as [len s2]. binv H. destruct a as [neg s3].
   cbv iota beta in H. binv H. binv H. binv H. destruct a1 as [atoms s4]. binv H. destruct a1 as [ws s5]. inversion H; subst. clear H.
   destruct (count_inv _ _ _ E) as (nb & Tb & Vb & Rb & Pb). destruct (count_inv _ _ _ E0) as (nl & Tl & Vl & Rl & Pl).
   destruct (count_inv _ _ _ E1) as (nn & Tn & Vn & Rn & Pn).
@@ -107,7 +125,7 @@ Proof.
   - eapply toks_cons; [eassumption|]. eapply toks_cons; [eassumption|]. eapply toks_cons; [eassumption|]. eapply toks_app; eassumption.
   - unfold gbody_shape, len_is. cbn [gb_len gb_atoms]. lia.
   - unfold len_is. lia.
-  - unfold gbody_in. cbn [gb_len gb_neg gb_atoms]. rewrite Rl, Rn, Hrs, Vl, Vn, E3. reflexivity.
+  - unfold gbody_in_v. cbn [gb_len gb_neg gb_atoms]. rewrite Rl, Rn, Hrs, Vl, Vn, E3. reflexivity.
   - unfold gweight_in. lia.
   - exact Hwr.
   - rewrite wrap32s_id by lia. lia.
@@ -125,28 +143,28 @@ Lemma read_rule_inv o prio t s cs prio' s' : read_rule o prio (nval t) s = Ok (c
   exists r l, rule_toks r = t :: l /\ toks l (rest s) (rest s') /\ grule_shape r = true /\
               grule_in (claspExt o) r = true /\ d_grule prio r = (cs, prio').
 Proof.
-  unfold read_rule. intros H.
+  unfold read_rule_v. intros H.
   destruct ((nval t =? Sm_Choice) || (nval t =? Sm_Disjunctive)) eqn:Em.
   { binv H. destruct a as [n s1]. binv H. destruct a as [hs s2]. binv H. destruct a as [b s3]. inversion H; subst. clear H.
     destruct (m_atom_inv _ _ _ E) as (nn & Tn & Vn & Rn).
-    assert (Pn : 0 <= n) by (unfold gatom_in in Rn; lia).
+    assert (Pn : 0 <= n) by (unfold gratom_in in Rn; lia).
     destruct (atoms_inv _ _ _ _ _ E0 Pn) as (lh & Th & Hlen & Hvs & Hrs).
     destruct (m_body_inv _ _ _ E1) as (bd & Tb & Sb & Ib & Db).
-    exists (GMulti t nn lh bd), (nn :: lh ++ gb_len bd :: gb_neg bd :: gb_atoms bd). cbn [rule_toks grule_shape grule_in d_grule].
+    exists (GMulti t nn lh bd), (nn :: lh ++ gb_len bd :: gb_neg bd :: gb_atoms bd). cbn [rule_toks grule_shape grule_in_v d_grule].
     split; [reflexivity|]. split; [eapply toks_cons; [eassumption|]; eapply toks_app; eassumption|].
     unfold len_is. rewrite Em, Sb, Rn, Hrs, Ib, Hvs, Db. split; [|split; reflexivity]. cbn [andb]. rewrite andb_true_r. lia. }
   destruct (nval t =? Sm_Basic) eqn:Eb.
   { binv H. destruct a as [h s1]. binv H. destruct a as [b s2]. inversion H; subst. clear H.
     destruct (m_atom_inv _ _ _ E) as (nh & Tn & Vn & Rn).
     destruct (m_body_inv _ _ _ E0) as (bd & Tb & Sb & Ib & Db).
-    exists (GBasic t nh bd), (nh :: gb_len bd :: gb_neg bd :: gb_atoms bd). cbn [rule_toks grule_shape grule_in d_grule].
+    exists (GBasic t nh bd), (nh :: gb_len bd :: gb_neg bd :: gb_atoms bd). cbn [rule_toks grule_shape grule_in_v d_grule].
     split; [reflexivity|]. split; [eapply toks_cons; eassumption|].
     rewrite Eb, Sb, Rn, Ib, Vn, Db. repeat split. }
   destruct (nval t =? Sm_Weight) eqn:Ew.
   { rewrite orb_true_r in H. binv H. destruct a as [h s1]. binv H. destruct a as [[bnd wl] s2]. inversion H; subst. clear H.
     destruct (m_atom_inv _ _ _ E) as (nh & Tn & Vn & Rn).
     destruct (m_sum_w_inv _ _ _ _ E0) as (bn & bd & wts & Tb & Sb & Lw & Ib & Wb & Ww & Vb & Vw).
-    exists (GWeight t nh bn bd wts), (nh :: bn :: gb_len bd :: gb_neg bd :: gb_atoms bd ++ wts). cbn [rule_toks grule_shape grule_in d_grule].
+    exists (GWeight t nh bn bd wts), (nh :: bn :: gb_len bd :: gb_neg bd :: gb_atoms bd ++ wts). cbn [rule_toks grule_shape grule_in_v d_grule].
     split; [reflexivity|]. split; [eapply toks_cons; eassumption|].
     rewrite Ew, Sb, Lw, Rn, Wb, Ib, Ww, Vn, Vb, Vw. repeat split. }
   rewrite orb_false_r in H.
@@ -154,31 +172,31 @@ Proof.
   { binv H. destruct a as [h s1]. binv H. destruct a as [[bnd wl] s2]. inversion H; subst. clear H.
     destruct (m_atom_inv _ _ _ E) as (nh & Tn & Vn & Rn).
     destruct (m_sum_c_inv _ _ _ _ E0) as (bd & bn & Tb & Sb & Ib & Wb & Vb & Vw).
-    exists (GCard t nh bd bn), (nh :: gb_len bd :: gb_neg bd :: bn :: gb_atoms bd). cbn [rule_toks grule_shape grule_in d_grule].
+    exists (GCard t nh bd bn), (nh :: gb_len bd :: gb_neg bd :: bn :: gb_atoms bd). cbn [rule_toks grule_shape grule_in_v d_grule].
     split; [reflexivity|]. split; [eapply toks_cons; eassumption|].
     rewrite Ec, Sb, Rn, Wb, Ib, Vn, Vb, Vw. repeat split. }
   destruct (nval t =? Sm_Optimize) eqn:Eo.
   { binv H. destruct a as [[bnd wl] s1]. inversion H; subst. clear H.
     destruct (m_sum_w_inv _ _ _ _ E) as (bn & bd & wts & Tb & Sb & Lw & Ib & Wb & Ww & Vb & Vw).
-    exists (GMin t bn bd wts), (bn :: gb_len bd :: gb_neg bd :: gb_atoms bd ++ wts). cbn [rule_toks grule_shape grule_in d_grule].
+    exists (GMin t bn bd wts), (bn :: gb_len bd :: gb_neg bd :: gb_atoms bd ++ wts). cbn [rule_toks grule_shape grule_in_v d_grule].
     split; [reflexivity|]. split; [exact Tb|].
     rewrite Eo, Sb, Lw, Wb, Ib, Ww, Vw. repeat split. }
   destruct (nval t =? Sm_ClaspIncrement) eqn:Ei.
   { destruct (claspExt o); [|discriminate]. binv H. destruct a as [z s1]. binv H. inversion H; subst. clear H.
     destruct (count_inv _ _ _ E) as (nz & Tz & Vz & Rz & Pz). apply require_ok in E0.
-    exists (GInc t nz), [nz]. cbn [rule_toks grule_shape grule_in d_grule].
+    exists (GInc t nz), [nz]. cbn [rule_toks grule_shape grule_in_v d_grule].
     split; [reflexivity|]. split; [apply toks_one; exact Tz|]. rewrite Ei, Vz, E0. repeat split. }
   destruct (nval t =? Sm_ClaspAssignExt) eqn:Ea.
   { cbn [orb] in H. destruct (claspExt o); [|discriminate]. binv H. destruct a as [a s1]. binv H. destruct a0 as [v s2]. inversion H; subst. clear H.
     destruct (m_atom_inv _ _ _ E) as (na & Tn & Vn & Rn).
     destruct (m_pos_inv _ _ _ _ E0) as (nv & Tv & Vv & Rv).
-    exists (GAssign t na nv), [na; nv]. cbn [rule_toks grule_shape grule_in d_grule].
+    exists (GAssign t na nv), [na; nv]. cbn [rule_toks grule_shape grule_in_v d_grule].
     split; [reflexivity|]. split; [eapply toks_cons; [eassumption|]; apply toks_one; exact Tv|].
     rewrite Ea, Rn, Vn, Vv, (extval_eq v Rv). change sm_extval_max with 2 in Rv. repeat split. cbn [andb]. lia. }
   cbn [orb] in H. destruct (nval t =? Sm_ClaspReleaseExt) eqn:Er; [|discriminate].
   destruct (claspExt o); [|discriminate]. binv H. destruct a as [a s1]. inversion H; subst. clear H.
   destruct (m_atom_inv _ _ _ E) as (na & Tn & Vn & Rn).
-  exists (GRelease t na), [na]. cbn [rule_toks grule_shape grule_in d_grule].
+  exists (GRelease t na), [na]. cbn [rule_toks grule_shape grule_in_v d_grule].
   split; [reflexivity|]. split; [apply toks_one; exact Tn|]. rewrite Er, Rn, Vn. repeat split.
 Qed.
 
@@ -187,7 +205,7 @@ Lemma read_rules_inv o : forall fuel prio s cs s' w, read_rules fuel o prio s = 
   exists rules rend, toks (flat_map rule_toks rules ++ [rend]) (w ++ rest s) (rest s') /\
      forallb grule_shape rules = true /\ nval rend = 0 /\ forallb (grule_in (claspExt o)) rules = true /\ cs = d_grules prio rules.
 Proof.
-  induction fuel as [|fu IH]; intros prio s cs s' w H Hw; cbn [read_rules] in H; [discriminate|].
+  induction fuel as [|fu IH]; intros prio s cs s' w H Hw; cbn [read_rules_v] in H; [discriminate|].
   destruct (m_pos sm_rt_max s) as [[rt s1]| |] eqn:E; try discriminate.
   destruct (m_pos_inv _ _ _ _ E) as (n & Tn & Vn & Rn). apply (tok_addws w) in Tn; [|exact Hw].
   destruct (Z.eqb_spec rt 0) as [->|N0].
@@ -375,7 +393,7 @@ Qed.
 Lemma do_parse_inv o s cs s' w : do_parse o s = (cs, Ok s') -> ws_ok w = true ->
   exists st, w ++ rest s = r_gstep st ++ rest s' /\ gstep_ok st (rest s') = true /\ gstep_in (claspExt o) st = true /\ cs = d_gstep st.
 Proof.
-  unfold do_parse. intros H Hw.
+  unfold do_parse_v. intros H Hw.
   apply cbind_ok in H. destruct H as (c0 & s0 & c0' & H0 & H & ->). inversion H0; subst. clear H0.
   apply cbind_ok in H. destruct H as (c1 & s1 & c1' & H1 & H & ->).
   apply cbind_ok in H. destruct H as (c2 & s2 & c2' & H2 & H & ->).
@@ -400,7 +418,7 @@ Proof.
   - unfold gstep_ok. rewrite <- K2, <- K3, <- K4, <- K5. unfold r_sec_models, step_toks, st.
     cbn [g_rules g_rend g_syms g_send g_bpw g_bpnl g_bplus g_bpend g_bmw g_bmnl g_bminus g_bmend g_ext g_models].
     rewrite T1, Sh1, V1, T2, T2', V2, T3, T4, T5, T5'. reflexivity.
-  - unfold gstep_in, st.
+  - unfold gstep_in_v, st.
     cbn [g_rules g_rend g_syms g_send g_bpw g_bpnl g_bplus g_bpend g_bmw g_bmnl g_bminus g_bmend g_ext g_models].
     rewrite I1, I2, I3, I4, I5, I5'. reflexivity.
   - unfold d_gstep, st.
@@ -414,7 +432,7 @@ Lemma parse_steps_inv o inc : forall fuel s cs w, parse_steps fuel o inc s = (cs
      steps <> [] /\ tail_ok tail = true /\ forallb (gstep_in (claspExt o)) steps = true /\
      ((length steps <=? 1)%nat || inc = true) /\ cs = flat_map d_gstep steps.
 Proof.
-  induction fuel as [|fu IH]; intros s cs w H Hw; cbn [parse_steps] in H; [discriminate|].
+  induction fuel as [|fu IH]; intros s cs w H Hw; cbn [parse_steps_v] in H; [discriminate|].
   apply cbind_ok in H. destruct H as (c1 & s1 & c2 & H1 & H & ->).
   destruct (do_parse_inv _ _ _ _ _ H1 Hw) as (st & Est & Hst & Ist & Dst).
   cbv zeta in H. destruct (a_end (a_skipws s1)) eqn:Eend; cbn [negb andb] in H.
@@ -429,16 +447,21 @@ Proof.
 Qed.
 
 (* ---------------- the reader ---------------- *)
-Lemma g_sound (o : opts) (t : list Z) (cs : list call) : read_smodels o t = (cs, Ok tt) ->
+Lemma g_sound_v (o : opts) (t : list Z) (cs : list call) : read_smodels o t = (cs, Ok tt) ->
   exists p, glayout_ok p = true /\ gin_range (claspExt o) p = true /\ t = grender p /\ cs = gdenote p.
 Proof.
-  unfold read_smodels. rewrite peek_hd. unfold a_init. cbn [rest].
+  unfold read_smodels_v. rewrite peek_hd. unfold a_init. cbn [rest].
   destruct (is_digit (hd 0 t) && (negb (hd 0 t =? 57) || claspExt o)) eqn:Ep; [|discriminate].
   apply andb_prop in Ep. destruct Ep as [Hd Hinc].
   unfold cbind. destruct (parse_steps (fuel_of (amk t 1)) o (hd 0 t =? 57) (amk t 1)) as [c2 r] eqn:E.
   intros H. inversion H; subst. clear H.
   destruct (parse_steps_inv _ _ _ _ _ [] E eq_refl) as (steps & tail & Es & Hs & Hne & Ht & Is & Hl & Ds).
   cbn [app rest] in Es. exists (mkgprog steps tail).
-  unfold glayout_ok, gin_range, gdenote, gincremental, grender. cbn [gp_steps gp_tail]. rewrite <- Es, Hs, Ht, Hd, Is, Hinc, Hl, Ds.
+  unfold glayout_ok, gin_range_v, gdenote, gincremental, grender. cbn [gp_steps gp_tail]. rewrite <- Es, Hs, Ht, Hd, Is, Hinc, Hl, Ds.
   destruct steps; [congruence|]. repeat split.
 Qed.
+End MaxVar.
+
+Lemma g_sound (o : opts) (t : list Z) (cs : list call) : read_smodels o t = (cs, Ok tt) ->
+  exists p, glayout_ok p = true /\ gin_range (claspExt o) p = true /\ t = grender p /\ cs = gdenote p.
+Proof. exact (g_sound_v sm_varMax o t cs). Qed.
